@@ -64,6 +64,10 @@ fn type_of(n: u16) -> Option<Type> {
         16 => Type::TXT,
         28 => Type::AAAA,
         255 => Type::ANY,
+        39 => Type::DNAME,
+        41 => Type::OPT,
+        43 => Type::DS,
+        99 => Type::SPF,
         _ => return None,
     })
 }
@@ -176,6 +180,20 @@ pub fn run_script(init: &str, words: &[&str]) -> String {
                     let t = type_of(op[2].parse().unwrap()).unwrap();
                     match gen::RR::new_question(&n, t, Class::IN) {
                         Ok(rr) => ok_or_err(pp.insert_rr(Section::Question, rr)),
+                        Err(e) => format!("err:{}", err_kind(&e)),
+                    }
+                }
+                ("insertrr", 7) => {
+                    // a record built with the public constructor RR::new (any type, class, data) and handed to insert_rr
+                    cur = Cur::None;
+                    let sec = match op[1] { "Q" => Section::Question, "A" => Section::Answer, "N" => Section::NameServers, _ => Section::Additional };
+                    let n = unhex(op[2]).unwrap();
+                    let t = type_of(op[3].parse().unwrap()).unwrap();
+                    let c = match op[4] { "1" => Class::IN, "3" => Class::CH, "4" => Class::HS, "254" => Class::NONE, _ => Class::ANY };
+                    let ttl: u32 = op[5].parse().unwrap();
+                    let rd = if op[6] == "-" { vec![] } else { unhex(op[6]).unwrap() };
+                    match gen::RR::new(gen::RRHeader { name: n, ttl, class: c, rr_type: t }, &rd) {
+                        Ok(rr) => ok_or_err(pp.insert_rr(sec, rr)),
                         Err(e) => format!("err:{}", err_kind(&e)),
                     }
                 }
